@@ -90,6 +90,13 @@ def run_case(case: dict):
 
             res["internal_unavailable"] = _internal.STATE.get("broken") or "not recorded"
         res["unscripted"] = getattr(beh, "unscripted", 0)
+        if getattr(ctx, "wake", None) is not None and not getattr(ctx, "wake_truncated", False):
+            res["wake"] = {"init": ctx.wake_init, "ev": ctx.wake}
+        else:
+            from . import wake as _wake
+
+            res["wake"] = None
+            res["wake_unavailable"] = "too long" if getattr(ctx, "wake_truncated", False) else (_wake.STATE.get("broken") or "not recorded")
     return res
 
 
